@@ -24,6 +24,8 @@ import (
 type WPkg struct {
 	Name    string
 	Dir     string
+	CPath   string // generated C for this package
+	Corpus  bool   // a /verif/corpus program, not std
 	TM      *t.Map
 	Files   []*a.File
 	Structs []*a.Struct
@@ -102,6 +104,7 @@ func loadStd(c *core.Ctx, cb *core.CBuild) []*WPkg {
 		if err != nil {
 			c.Infra("tier W: %v", err)
 		}
+		p.CPath = cb.PkgC[name]
 		out = append(out, p)
 		nf += len(p.Funcs)
 		ns += len(p.Structs)
@@ -131,4 +134,43 @@ func (p *WPkg) structOf(f *a.Func) *a.Struct {
 		}
 	}
 	return nil
+}
+
+// loadCorpus compiles every /verif/corpus/<group>/*.wuffs program (one package
+// per file, package name = file name without extension) with the scratch
+// build's compiler and loads it through the front end. A corpus program the
+// working tree's compiler rejects is reported as a failed obligation: the
+// corpus only contains programs the unchanged compiler accepts.
+func loadCorpus(c *core.Ctx, cb *core.CBuild, group string) []*WPkg {
+	dir := filepath.Join(c.Home, "corpus", group)
+	ents, err := os.ReadDir(dir)
+	if err != nil {
+		c.Undecided("corpus."+group, "corpus/"+group, "corpus directory readable", err.Error())
+		return nil
+	}
+	var out []*WPkg
+	var names []string
+	for _, e := range ents {
+		if strings.HasSuffix(e.Name(), ".wuffs") {
+			names = append(names, e.Name())
+		}
+	}
+	sort.Strings(names)
+	for _, n := range names {
+		pkg := strings.TrimSuffix(n, ".wuffs")
+		sdir, cpath, err := cb.GenPackage(pkg, []string{filepath.Join(dir, n)})
+		if err != nil {
+			c.Fail("corpus.compile", "corpus/"+group+"/"+n, "the working tree's compiler accepts and translates this corpus program", 1, err.Error())
+			continue
+		}
+		p, err := loadWuffsDir(pkg, sdir, cb.GenWuffs)
+		if err != nil {
+			c.Fail("corpus.compile", "corpus/"+group+"/"+n, "the front end accepts this corpus program", 1, err.Error())
+			continue
+		}
+		p.CPath, p.Corpus = cpath, true
+		out = append(out, p)
+	}
+	c.Analysed("corpus_"+group, names)
+	return out
 }
